@@ -1,8 +1,39 @@
 """C05 Fetched manifests never roll back stored data (M engine)."""
+import re
+
 import z3
 
 import mir
 import mprop
+
+
+def check_cached_fields(res, E, fields):
+    """The ordering fields the comparison works on are cached by StoredManifest::new: manifest_number and this_update
+    must be the manifest content's own values (not the EE certificate's), not_after the EE certificate's notAfter."""
+    body = E.prog.find("src/store.rs", "StoredManifest", "new")
+    ee, mft = mir.Opq("&ResourceCert", "ee_cert"), mir.Opq("&ManifestContent", "manifest")
+    paths = [p for p in E.explore(body, max_visits=2, arg_values={"_1": {(): ee}, "_2": {(): mft}}) if p.kind == "return"]
+    res.functions.append("routinator::store::StoredManifest::new (MIR): source of the cached manifest_number / this_update / not_after")
+    want = {"manifest_number": (r"ManifestContent::manifest_number$", mft), "this_update": (r"ManifestContent::this_update$", mft),
+            "not_after": (r"Validity::not_after$", None)}
+    if len(paths) != 1:
+        res.inconclusive.append("StoredManifest::new: %d returning paths" % len(paths))
+        return
+    p = paths[0]
+    for fld, (pat, recv) in want.items():
+        leaf = p.ret.get((("f", fields.index(fld)),))
+        src = [e for e in p.events if e.kind in ("call", "pure") and e.dest and e.dest.get(()) is leaf]
+        good = len(src) == 1 and re.search(pat, src[0].name) is not None
+        if good and recv is not None:
+            good = bool(src[0].args) and src[0].args[0].get(()) is recv
+        res.distinct += 1
+        res.samples.append({"StoredManifest::new field": fld, "computed_by": src[0].name if src else None})
+        if not good:
+            fn = mprop.write_cex(res, "cached_%s" % fld, p, E,
+                                 "StoredManifest::new fills `%s` from %s, not from %s" % (fld, src[0].name if src else "an unknown source", pat))
+            res.violation("mir:stored-manifest-caches-wrong-" + fld,
+                          "the stored manifest's cached `%s` is not the manifest's own value (%s): the newer-than comparison "
+                          "and the consistency check of the stored copy then work on wrong data" % (fld, src[0].name if src else "unknown source"), fn)
 
 
 def run(res, tier):
@@ -135,6 +166,7 @@ def run(res, tier):
         res.samples.append(mprop.path_sample(p))
     if n_true == 0 or n_false == 0:
         res.inconclusive.append("vacuity: paths returning Ok(true)=%d, Ok(false)=%d" % (n_true, n_false))
+    check_cached_fields(res, E, fields)
     res.extra["paths"] = len(paths)
     res.extra["paths_ok_true"] = n_true
     res.extra["paths_ok_false"] = n_false
